@@ -61,7 +61,7 @@ type recWriter struct {
 	code int
 }
 
-func (w *recWriter) Header() bfe_http.Header   { return w.h }
+func (w *recWriter) Header() bfe_http.Header     { return w.h }
 func (w *recWriter) Write(b []byte) (int, error) { return len(b), nil }
 func (w *recWriter) WriteHeader(c int)           { w.code = c }
 
@@ -163,12 +163,12 @@ func actionsRun() {
 		o.Panic = vh.Guard(func() {
 			switch c.Fam {
 			case "rewrite":
-				o.Ret, _ = mi.request(bfe_module.HandleAfterLocation, req)
+				o.Ret = mi.requestPoints(req)
 			case "header":
-				o.Ret, _ = mi.request(bfe_module.HandleAfterLocation, req)
+				o.Ret = mi.requestPoints(req)
 				mi.response(bfe_module.HandleReadResponse, req, res)
 			case "redirect":
-				o.Ret, _ = mi.request(bfe_module.HandleAfterLocation, req)
+				o.Ret = mi.requestPoints(req)
 				if o.Ret == bfe_module.BfeHandlerRedirect {
 					o.Redir = true
 					w := &recWriter{h: bfe_http.Header{}}
